@@ -251,6 +251,9 @@ func ledgerScenario(c *Ctx, mode string) {
 	for _, a := range l.univ {
 		l.label(a)
 	}
+	if mode == "c06" {
+		hashFacts(c)
+	}
 	c.Op(fmt.Sprintf("params %s %s %s %d %d %d", params.VoteExchangeRate.String(), params.DepositExchangeRate.String(), params.MinCandidateDeposit.String(),
 		params.TermDuration, params.InterimDuration, l.label(params.DepositPoolAddress)), "ok")
 	var us []string
